@@ -54,7 +54,10 @@ theorem seen_mono (base : List Fml) (g : Goal) (mi : Option Nat) (mt : Int) :
     ∀ (answers : List (Answer × Int)) (l : LoopSt), ∀ p ∈ l.seen, p ∈ (incLoop base g mi mt answers l).seen := by
   intro answers
   induction answers with
-  | nil => intro l p hp; simpa [incLoop] using hp
+  | nil =>
+      intro l p hp
+      simp only [incLoop]
+      split <;> exact hp
   | cons ad rest ih =>
       intro l p hp
       obtain ⟨a, d⟩ := ad
@@ -112,9 +115,11 @@ theorem incLoop_spec (base : List Fml) (g : Goal) (mi : Option Nat) (mt : Int) :
   intro answers
   induction answers with
   | nil =>
-      intro l hinv _ hex _
+      intro l hinv _ _ _
       simp only [incLoop]
-      exact ⟨hinv, fun h => absurd h hex⟩
+      split
+      · exact ⟨⟨hinv.frames_sub, hinv.sorted, hinv.best_ok, hinv.best_none⟩, by intro h; simp at h⟩
+      · exact ⟨⟨hinv.frames_sub, hinv.sorted, hinv.best_ok, hinv.best_none⟩, by intro h; simp at h⟩
   | cons ad rest ih =>
       intro l hinv hfull hex hcons
       obtain ⟨a, d⟩ := ad
